@@ -192,6 +192,15 @@ fn zero4() -> M4 {
     [[Rat::ZERO; 4]; 4]
 }
 
+/// viewport sizes down to n * 2^-30 (f32) / n * 2^-60 (f64), n < 256
+fn tiny_exp<S: Dom>() -> i64 {
+    if S::NAME == "f32" {
+        30
+    } else {
+        60
+    }
+}
+
 fn gen_mv(t: &mut Tape, cx: &mut Cx) -> M4 {
     let mut m = zero4();
     m[3][3] = Rat::ONE;
@@ -332,7 +341,8 @@ fn gen_proj(t: &mut Tape, cx: &mut Cx, wide_depth: bool) -> M4 {
     m
 }
 
-fn gen_vp(t: &mut Tape, cx: &mut Cx) -> [Rat; 4] {
+/// `tiny`: largest e of a tiny size n * 2^-e (chosen so that sizes below the machine epsilon of the type occur)
+fn gen_vp(t: &mut Tape, cx: &mut Cx, tiny: i64) -> [Rat; 4] {
     let r = t.below(8);
     let ord_off = |t: &mut Tape| d(t.int(-200, 800), -2);
     let big_off = |t: &mut Tape| d((if t.bool() { -1 } else { 1 }) * t.int(1, 1023), t.int(8, 20) as i32);
@@ -346,8 +356,8 @@ fn gen_vp(t: &mut Tape, cx: &mut Cx) -> [Rat; 4] {
         }
         5 | 6 => {
             cx.label("viewport: tiny size");
-            w = d(t.int(1, 255), -(t.int(10, 30) as i32));
-            h = d(t.int(1, 255), -(t.int(10, 30) as i32));
+            w = d(t.int(1, 255), -(t.int(10, tiny) as i32));
+            h = d(t.int(1, 255), -(t.int(10, tiny) as i32));
             if r == 6 {
                 cx.label("viewport: large offset");
                 x = big_off(t);
@@ -375,10 +385,10 @@ fn gen_vp(t: &mut Tape, cx: &mut Cx) -> [Rat; 4] {
     [x, y, w, h]
 }
 
-fn gen_unit(t: &mut Tape, cx: &mut Cx, wide_depth: bool) -> Unit {
+fn gen_unit(t: &mut Tape, cx: &mut Cx, wide_depth: bool, tiny: i64) -> Unit {
     let mv = gen_mv(t, cx);
     let proj = gen_proj(t, cx, wide_depth);
-    let vp = gen_vp(t, cx);
+    let vp = gen_vp(t, cx, tiny);
     let mut p = [d(t.int(-72, 72), -3), d(t.int(-72, 72), -3), d(t.int(-72, 72), -3)];
     // a point close to the eye plane: eye-space z a small power of two (so |clip w| << |clip x,y| for a perspective)
     let local = [d(t.int(-16, 16), -2), d(t.int(-16, 16), -2), d((if t.bool() { -1 } else { 1 }) * t.int(1, 3), -(t.int(0, 12) as i32)), Rat::ONE];
@@ -570,7 +580,7 @@ fn reference(u: &Unit) -> Option<([Rat; 3], [Rat; 3])> {
 /// world_to_viewport_{no,zo} with the modelview scaled by 2^a, the projection by 2^b and the world unit by 2^j.
 fn proj_scaled<S: Dom>(t: &mut Tape, cx: &mut Cx) -> CaseResult {
     let f = fmt::<S>();
-    let u = gen_unit(t, cx, true);
+    let u = gen_unit(t, cx, true, tiny_exp::<S>());
     let pm = rf::matmul(&u.proj, &u.mv);
     if rf::det(&pm).numer() == 0 {
         discard!("precondition:singular");
@@ -813,7 +823,7 @@ fn unproj_tol(ia: &InvAn, n: &[f64; 3], dn: &[f64; 3], world: &[f64; 3], obj_w: 
 fn unproj_scaled<S: Dom>(t: &mut Tape, cx: &mut Cx) -> CaseResult {
     let f = fmt::<S>();
     let eps = S::eps();
-    let u = gen_unit(t, cx, false);
+    let u = gen_unit(t, cx, false, tiny_exp::<S>());
     let pm = rf::matmul(&u.proj, &u.mv);
     let det = rf::det(&pm);
     if det.numer() == 0 {
@@ -846,17 +856,20 @@ fn unproj_scaled<S: Dom>(t: &mut Tape, cx: &mut Cx) -> CaseResult {
     };
     let mode = t.below(8);
     let mut j = if mode >= 5 { strat(t, -l / 2, l / 2) } else { 0 };
-    let mut s = if mode == 0 || mode == 5 { 0 } else { strat(t, -l / 2, l / 2) };
-    if !fits(s, j) {
-        s /= 2;
-        j /= 2;
-        if !fits(s, j) {
-            s = 0;
-            j = 0;
-            if !fits(s, j) {
-                discard!("excluded:dynamic-range-of-the-4x4-inverse");
-            }
+    let mut s = if mode == 0 || mode == 5 { 0 } else { strat(t, -(l - 2), l - 2) };
+    // shrink the drawn exponents until the dynamic range admits them
+    let (s0, j0) = (s, j);
+    let mut found = false;
+    for num in [8, 7, 6, 5, 4, 3, 2, 1, 0] {
+        s = s0 * num / 8;
+        j = j0 * num / 8;
+        if fits(s, j) {
+            found = true;
+            break;
         }
+    }
+    if !found {
+        discard!("excluded:dynamic-range-of-the-4x4-inverse");
     }
     if exp_range::<S>(&u.p, &|_| j).is_none() {
         discard!("regime:point-not-representable");
@@ -1037,7 +1050,7 @@ fn unproj_scaled<S: Dom>(t: &mut Tape, cx: &mut Cx) -> CaseResult {
 fn picking_scaled<S: Dom>(t: &mut Tape, cx: &mut Cx) -> CaseResult {
     let f = fmt::<S>();
     let eps = S::eps();
-    let vp = gen_vp(t, cx);
+    let vp = gen_vp(t, cx, tiny_exp::<S>());
     let mut centre = match t.below(4) {
         0 | 1 => [vp[0] + vp[2] * d(t.int(-4, 12), -3), vp[1] + vp[3] * d(t.int(-4, 12), -3)],
         2 => {
@@ -1158,12 +1171,12 @@ pub fn add(checks: &mut Vec<Check>) {
         };
     }
     let a = "world_to_viewport_{no,zo} is invariant under modelview x 2^a, projection x 2^b and a change of the world unit by 2^j: exact dyadic unit-frame case (perspective / frustum / orthographic / structured bottom rows (0,0,c,1).. / arbitrary; viewports with large offsets, tiny, huge, negative sizes; points close to the eye plane), exponents over the whole normal range and down to a subnormal clip w; compared with the exact unit-frame projection within a per-case forward error bound (clip space exact when all terms are representable); the unit frame also evaluated by vek in exact arithmetic; both layouts";
-    tape!("scaled-projection-f32", a, 192, 8_000, 600_000, proj_scaled::<f32>);
-    tape!("scaled-projection-f64", a, 192, 8_000, 600_000, proj_scaled::<f64>);
+    tape!("scaled-projection-f32", a, 192, 8_000, 300_000, proj_scaled::<f32>);
+    tape!("scaled-projection-f64", a, 192, 8_000, 300_000, proj_scaled::<f64>);
     let b = "viewport_to_world_{no,zo} of a dyadic window point (depth inside / on the ends of / outside [0,1], inside and outside the viewport) vs the exact unit-frame unprojection, and the round trip viewport_to_world(world_to_viewport(p)) = p, with modelview x 2^a, projection x 2^b (a, b anywhere in the normal range, |a+b| within the dynamic range of the 4x4 inverse) and the world unit x 2^j; per-case forward error bound (permanents of the minors); unit frame in exact arithmetic; both layouts";
-    tape!("scaled-unprojection-f32", b, 192, 5_000, 400_000, unproj_scaled::<f32>);
-    tape!("scaled-unprojection-f64", b, 192, 5_000, 400_000, unproj_scaled::<f64>);
+    tape!("scaled-unprojection-f32", b, 192, 5_000, 200_000, unproj_scaled::<f32>);
+    tape!("scaled-unprojection-f64", b, 192, 5_000, 200_000, unproj_scaled::<f64>);
     let c = "picking_region with viewport, centre and size x 2^k (k over the whole normal range and down to subnormal sizes; sizes 2^-20 of the viewport and huge; centres far outside; viewports with large offsets / tiny / negative sizes): every entry vs the exact matrix the property determines; unit frame in exact arithmetic; both layouts";
-    tape!("scaled-picking-f32", c, 64, 10_000, 500_000, picking_scaled::<f32>);
-    tape!("scaled-picking-f64", c, 64, 10_000, 500_000, picking_scaled::<f64>);
+    tape!("scaled-picking-f32", c, 64, 10_000, 400_000, picking_scaled::<f32>);
+    tape!("scaled-picking-f64", c, 64, 10_000, 400_000, picking_scaled::<f64>);
 }
